@@ -163,17 +163,18 @@ func ConvertToAssignments(stmt *gorm.Statement) (set clause.Set) {
 		switch stmt.ReflectValue.Kind() {
 		case reflect.Slice, reflect.Array:
 			if size := stmt.ReflectValue.Len(); size > 0 {
-				var isZero bool
-				for i := 0; i < size; i++ {
+				// the elements that carry a key identify the rows, wherever an element without one stands
+				hasKey := false
+				for i := 0; i < size && !hasKey; i++ {
 					for _, field := range stmt.Schema.PrimaryFields {
-						_, isZero = field.ValueOf(stmt.Context, stmt.ReflectValue.Index(i))
-						if !isZero {
+						if _, isZero := field.ValueOf(stmt.Context, stmt.ReflectValue.Index(i)); !isZero {
+							hasKey = true
 							break
 						}
 					}
 				}
 
-				if !isZero {
+				if hasKey {
 					_, primaryValues := schema.GetIdentityFieldValuesMap(stmt.Context, stmt.ReflectValue, stmt.Schema.PrimaryFields)
 					column, values := schema.ToQueryValues("", stmt.Schema.PrimaryFieldDBNames, primaryValues)
 					stmt.AddClause(clause.Where{Exprs: []clause.Expression{clause.IN{Column: column, Values: values}}})
